@@ -66,7 +66,9 @@ class C19(object):
     assumptions = ['priority order (iteration, iteration_error, iteration_abs_change, k, t) is the documented one',
                    "the table is compared structurally (lines split on newline, cells on tab), not byte for byte"]
     required_counters = ('synthetic.judged', 'solve.judged', 'cells.compared', 'synthetic.rerendered_after_dict_op', 'model.judged',
-                         'solve.horizon_set_on_solver')
+                         'solve.horizon_set_on_solver',
+                         'logfile.judged',
+                         'logfile.after_a_model_that_failed_inside_main')
 
     def n_cases(self, tier):
         return 40 if tier == 'quick' else 4000
@@ -76,6 +78,11 @@ class C19(object):
             from vf.gen import modelspec as M
             return {'kind': 'model', 'mspec': M.gen_spec(rng, n_zones=rng.choice([1, 2]), maxtime=rng.randint(1, 5)),
                     'fmt': rng.choice(['%.5g', '%r'])}
+        if idx % 16 == 7:
+            # the table as written to the 'timeseries' log file of Model.main(base): another model in the same process has
+            # just FAILED inside its own main(base_a); then this model runs with main(base_b)
+            return {'kind': 'logfile', 'builder': rng.choice(['SIM', 'SIMEX1', 'PC']), 'maxtime': rng.randint(2, 12),
+                    'failed_first': ['ConvergenceError', 'refused', None][(idx // 16) % 3]}
         if idx % 4 == 3:
             spec = G.gen_affine(rng, rho=rng.choice([0.2, 0.5]), tol=1e-8)
             case = {'kind': 'solve', 'spec': spec, 'text': G.render(spec), 'fmt': rng.choice(['%.5g', '%.12e', '%r']),
@@ -189,6 +196,71 @@ class C19(object):
             return {'verdict': 'violated' if rec.violations else 'held', 'nontrivial': bool(keys),
                     'evals': case['n'], 'keys': keys, 'shape': 'synthetic', 'counters': rec.counters,
                     'violations': rec.violations, 'obs': obs}
+        if case['kind'] == 'logfile':
+            import os, shutil, tempfile
+            from vf import ambient
+            from sfc_models.models import Model, Country
+            from sfc_models.sector import Market
+            from sfc_models.sector_definitions import Household
+            from sfc_models.utils import Logger
+            tmp = tempfile.mkdtemp(prefix='vf_c19_')
+            try:
+                base_a, base_b = os.path.join(tmp, 'model_a'), os.path.join(tmp, 'model_b')
+                with contextlib.redirect_stdout(io.StringIO()):
+                    if case['failed_first'] == 'ConvergenceError':
+                        ba = ambient.book_builders()['SIM'](country_code='AA')
+                        ma = ba.build_model()
+                        ma.MaxTime = 5
+                        ma.EquationSolver.MaxIterations = 2
+                        try:
+                            ma.main(base_a)
+                        except Exception:
+                            rec.count('logfile.after_a_model_that_failed_inside_main')
+                    elif case['failed_first'] == 'refused':
+                        ma = Model()
+                        ca_ = Country(ma, 'FF', 'refused')
+                        Household(ca_, 'HH', 'hh')
+                        Market(ca_, 'GOOD', 'no supplier')
+                        try:
+                            ma.main(base_a)
+                        except Exception:
+                            rec.count('logfile.after_a_model_that_failed_inside_main')
+                    bb = ambient.book_builders()[case['builder']](country_code='BB')
+                    mb = bb.build_model()
+                    mb.MaxTime = case['maxtime']
+                    try:
+                        mb.main(base_b)
+                    except Exception as e:
+                        return {'verdict': 'notjudged', 'shape': 'logfile|' + type(e).__name__}
+                    finally:
+                        try:
+                            Logger.cleanup()
+                        except Exception:
+                            pass
+                out_b = base_b + '_out.txt'
+                rec.count('logfile.judged')
+                if not os.path.exists(out_b):
+                    rec.violate('table_of_this_model_not_written_to_its_own_log_file',
+                                {'expected_file': os.path.basename(out_b), 'files': sorted(os.listdir(tmp)), 'failed_first': case['failed_first']})
+                else:
+                    text = open(out_b).read()
+                    gh, grows = monitors.parse_table(text)
+                    solver = mb.EquationSolver
+                    if len(grows) != case['maxtime'] + 1:
+                        rec.violate('rows_not_horizon_plus_one', {'rows': len(grows), 'horizon': case['maxtime'], 'file': os.path.basename(out_b),
+                                                                 'failed_first': case['failed_first']})
+                    elif sorted(gh) != sorted(solver.TimeSeries.keys()) or len(set(gh)) != len(gh):
+                        rec.violate('series_not_named_once', {'header': gh[:20], 'file': os.path.basename(out_b)})
+                    else:
+                        self.judge_table(dict(solver.TimeSeries), '%.5g', text, rec, {'fmt': '%.5g', 'log_file': True})
+                    if case['failed_first'] and os.path.exists(base_a + '_out.txt'):
+                        ga, ra = monitors.parse_table(open(base_a + '_out.txt').read())
+                        if any(n.startswith('BB_') or n in solver.TimeSeries and n not in ('k', 't') for n in ga) and len(ra) > 1:
+                            rec.violate('table_of_this_model_written_into_another_models_log_file', {'header': ga[:10], 'rows': len(ra)})
+            finally:
+                shutil.rmtree(tmp, ignore_errors=True)
+            return {'verdict': 'violated' if rec.violations else 'held', 'nontrivial': True, 'shape': 'logfile|' + str(case['failed_first']),
+                    'counters': rec.counters, 'violations': rec.violations, 'obs': {'builder': case['builder'], 'horizon': case['maxtime']}}
         if case['kind'] == 'model':
             from vf.gen import modelspec as M
             b = M.build(case['mspec'])
